@@ -266,6 +266,12 @@ func checkC16(c *core.Ctx) {
 	c.Decide("unique indexes (primary keys) on transactions(ledger, id) and logs(ledger, id) survive all migrations; ledgerSetups creates transaction_id_<ID> and log_id_<ID> for every ledger regardless of features and initialises each from max(id)+1 of its own table restricted to the ledger; the migration DO blocks create the same objects for pre-existing ledgers; InsertTransaction/InsertLog draw nextval from exactly those sequences and only when no id is supplied; the first-write resync in handleState sets each sequence from max(id) of its own table and ledger")
 	c.NotDecided("that ids increase in commit order under concurrency (needs the lock analysis of C09/C34 plus execution)")
 	c.Trust("Postgres sequence semantics")
+	ruleIDsAndSequences(c)
+}
+
+// ruleIDsAndSequences: unique (ledger, id), per-ledger sequences created plainly for every ledger
+// and started after the existing ids, drawn from by the insert paths, resynced on first write.
+func ruleIDsAndSequences(c *core.Ctx) {
 	cat := c.Catalog()
 	for _, t := range []string{"transactions", "logs"} {
 		found := false
@@ -287,6 +293,21 @@ func checkC16(c *core.Ctx) {
 		for where, objs := range map[string]map[string]*sqlfe.PerLedgerObj{"ledgerSetups": ls.Cat.MigrationLedgerObjs, "migrations": cat.MigrationLedgerObjs} {
 			sq := objs["sequence:"+sp.seq]
 			c.Check(sq != nil && sq.Cond == "", "SEQ/creation", where+":"+sp.seq, "", "created unconditionally", fmt.Sprintf("%s does not create sequence %s for every ledger (missing or feature-dependent)", where, sp.seq))
+			if sq != nil {
+				// ids follow commit order (under the per-ledger lock) only if nextval hands out
+				// consecutive values to whichever session asks: no per-session cache, step 1, no cycle
+				low := " " + strings.ToLower(sq.Text) + " "
+				plain := true
+				for _, opt := range []string{" cache ", " increment ", " cycle ", " maxvalue ", " minvalue ", " start "} {
+					if strings.Contains(low, opt) && !strings.Contains(low, " no"+strings.TrimSpace(opt)+" ") && !strings.Contains(low, " no "+strings.TrimSpace(opt)+" ") {
+						if opt == " cache " && (strings.Contains(low, " cache 1 ") || strings.Contains(low, " cache 1;")) {
+							continue
+						}
+						plain = false
+					}
+				}
+				c.Check(plain, "SEQ/creation", where+":"+sp.seq+":plain", sq.Origin, "no cache / increment / cycle options", fmt.Sprintf("%s creates sequence %s with options (%s): with a per-session cache or a step other than 1 the ids handed to concurrent connections no longer increase in commit order", where, sp.seq, strings.TrimSpace(sq.Text)))
+			}
 			sv := objs["setval:"+sp.seq]
 			ok := false
 			detail := "no setval statement"
